@@ -440,6 +440,7 @@ func Run(c *core.Ctx) int {
 		cases = append(cases, mixedCases(c)...)
 		cases = append(cases, rowsCases(c)...)
 		cases = append(cases, recalcCases(c)...)
+		cases = append(cases, datesCases(c)...)
 		cases = append(cases, synthetic(c)...)
 	}
 	var evs []*evaluated
@@ -525,7 +526,7 @@ func prepare(c *core.Ctx, cs Case) *evaluated {
 		return prepareValue(c, cs)
 	case "invoice-mixed":
 		return prepareMixed(c, cs)
-	case "rows", "recalc":
+	case "rows", "recalc", "dates":
 		return prepareRows(c, cs)
 	default:
 		return prepareInvoice(c, cs)
